@@ -30,7 +30,8 @@ theorem C17_ones_exists (dims : List Nat) (hpos : ∀ d ∈ dims, 1 ≤ d) :
     `s₁ + s₂` is the sum of the changes produced with `s₁` and with `s₂` (three passes from the same
     clean state over the same graph). -/
 theorem C17_additive [AddLaws S] {G : Graph S} (sem : Sem G) (wf : G.WF) (lawful : G.Lawful)
-    (ℓ j fuel root : Nat) (hf : root < fuel) (dims : List Nat) (σ σ₁ σ₂ σ₃ : EState S)
+    (ℓ j fuel root : Nat) (hkeep : ∀ n s, s ∈ G.kids n → s.tracked = true → s.node = ℓ → ((G.kids ℓ).isEmpty || s.keep) = stores sem ℓ)
+    (hf : root < fuel) (dims : List Nat) (σ σ₁ σ₂ σ₃ : EState S)
     (hclean : σ.Clean) (hlog : σ.log = []) (hg : ∀ g, σ.grad ℓ = some g → Shaped (sem.dimsOf ℓ) g)
     (s₁ s₂ : Tensor S) (h₁ : Shaped (sem.dimsOf root) s₁) (h₂ : Shaped (sem.dimsOf root) s₂)
     (ok₁ : backward G fuel root dims (sem.κ root) (some s₁) σ = .ok σ₁)
@@ -39,9 +40,9 @@ theorem C17_additive [AddLaws S] {G : Graph S} (sem : Sem G) (wf : G.WF) (lawful
     gradVal ℓ j σ₃ = gradVal ℓ j σ + (P sem ℓ j root s₁ + P sem ℓ j root s₂) ∧
     gradVal ℓ j σ₁ = gradVal ℓ j σ + P sem ℓ j root s₁ ∧
     gradVal ℓ j σ₂ = gradVal ℓ j σ + P sem ℓ j root s₂ := by
-  have e₁ := (backward_pathsum sem ℓ j wf lawful fuel root hf dims (some s₁) σ σ₁ hclean hlog hg s₁ rfl h₁ ok₁).1
-  have e₂ := (backward_pathsum sem ℓ j wf lawful fuel root hf dims (some s₂) σ σ₂ hclean hlog hg s₂ rfl h₂ ok₂).1
-  have e₃ := (backward_pathsum sem ℓ j wf lawful fuel root hf dims (some (tadd s₁ s₂)) σ σ₃ hclean hlog hg _ rfl
+  have e₁ := (backward_pathsum sem ℓ j wf hkeep lawful fuel root hf dims (some s₁) σ σ₁ hclean hlog hg s₁ rfl h₁ ok₁).1
+  have e₂ := (backward_pathsum sem ℓ j wf hkeep lawful fuel root hf dims (some s₂) σ σ₂ hclean hlog hg s₂ rfl h₂ ok₂).1
+  have e₃ := (backward_pathsum sem ℓ j wf hkeep lawful fuel root hf dims (some (tadd s₁ s₂)) σ σ₃ hclean hlog hg _ rfl
     (h₁.tadd h₂) ok₃).1
   rw [P_add sem ℓ j root s₁ s₂ h₁ h₂] at e₃
   exact ⟨e₃, e₁, e₂⟩
@@ -50,14 +51,15 @@ theorem C17_additive [AddLaws S] {G : Graph S} (sem : Sem G) (wf : G.WF) (lawful
     built-in closure over a commutative ring: they are linear in the delta), the change produced with
     the seed `α·s` is `α` times the change produced with `s`. -/
 theorem C17_homogeneous [AddLaws S] {G : Graph S} (sem : Sem G) (wf : G.WF) (lawful : G.Lawful)
-    (ℓ j fuel root : Nat) (hf : root < fuel) (dims : List Nat) (σ σ' : EState S)
+    (ℓ j fuel root : Nat) (hkeep : ∀ n s, s ∈ G.kids n → s.tracked = true → s.node = ℓ → ((G.kids ℓ).isEmpty || s.keep) = stores sem ℓ)
+    (hf : root < fuel) (dims : List Nat) (σ σ' : EState S)
     (hclean : σ.Clean) (hlog : σ.log = []) (hg : ∀ g, σ.grad ℓ = some g → Shaped (sem.dimsOf ℓ) g)
     (α : S) (hα0 : α * zero = zero) (hdist : ∀ a b : S, α * (a + b) = α * a + α * b)
     (hΛ : ∀ n i s x, (G.kids n)[i]? = some s → Shaped (sem.dimsOf n) x → sem.Λ n i (tsmul α x) = tsmul α (sem.Λ n i x))
     (s : Tensor S) (hs : Shaped (sem.dimsOf root) s)
     (ok : backward G fuel root dims (sem.κ root) (some (tsmul α s)) σ = .ok σ') :
     gradVal ℓ j σ' = gradVal ℓ j σ + α * P sem ℓ j root s := by
-  have e := (backward_pathsum sem ℓ j wf lawful fuel root hf dims (some (tsmul α s)) σ σ' hclean hlog hg _ rfl
+  have e := (backward_pathsum sem ℓ j wf hkeep lawful fuel root hf dims (some (tsmul α s)) σ σ' hclean hlog hg _ rfl
     (hs.tsmul α) ok).1
   rw [e]
   congr 1
